@@ -2,6 +2,7 @@ package sx
 
 import (
 	"fmt"
+	"os"
 	"go/token"
 	"go/types"
 	"sort"
@@ -371,10 +372,30 @@ func (m *Machine) Assert(id string, c T, where string) {
 			m.Stats.AssertUnsat++
 			return
 		}
-		// definitely violated on this (feasible) path
-		m.ensureModel()
-		m.recordCE(id, "assert", where, m.currentEnv())
-		m.Stats.AssertSat++
+		// violated on every input of this path — provided the path is feasible at
+		// all: branch-feasibility queries run under a short timeout and "unknown"
+		// keeps the path, so feasibility is re-established here with the full budget
+		if m.Conf.ConcreteSet {
+			m.recordCE(id, "assert", where, map[string]uint64{})
+			m.Stats.AssertSat++
+			m.abort("infeasible", "assertion definitely false; path ends")
+		}
+		switch m.S.Check() {
+		case solver.Sat:
+			env, ok := m.S.Model(m.F.Vars)
+			if !ok {
+				m.Stats.AssertUnk++
+				m.note("assert %s: constant false, path sat but model unreadable: %s", id, m.S.LastErr)
+			} else {
+				m.recordCE(id, "assert", where, env)
+				m.Stats.AssertSat++
+			}
+		case solver.Unsat:
+			m.abort("infeasible", "path condition unsat (found at a constant-false assertion)")
+		default:
+			m.Stats.AssertUnk++
+			m.note("assert %s: constant false on a path whose feasibility the solver did not decide (%s)", id, m.S.LastErr)
+		}
 		m.abort("infeasible", "assertion definitely false; path ends")
 	}
 	if m.Conf.ConcreteSet {
@@ -427,6 +448,13 @@ func (m *Machine) currentEnv() map[string]uint64 {
 }
 
 func (m *Machine) recordCE(id, kind, where string, env map[string]uint64) {
+	if os.Getenv("VERIF_DEBUGCE") != "" {
+		fmt.Fprintf(os.Stderr, "DEBUGCE %s env=%v\n  pc:\n", id, env)
+		for _, c := range m.pc {
+			v, ok := sym.Eval(c, env)
+			fmt.Fprintf(os.Stderr, "    [%v %v] %s\n", v, ok, clipStr(c.String(), 300))
+		}
+	}
 	ce := CE{ID: id, Kind: kind, Where: where, Model: map[string]uint64{}, Widths: map[string]int{}, Choices: map[string]int64{}}
 	for name, v := range m.ndVars {
 		ce.Model[name] = env[v.Name]
@@ -501,6 +529,25 @@ func (m *Machine) RunPath(fn *ssa.Function, prefix []int32) (res PathResult) {
 								panic(r2)
 							}
 						}()
+						if m.model == nil {
+							m.ensureModel()
+						}
+						if m.model == nil {
+							// feasibility not known from the short branch queries: decide it now
+							switch m.S.Check() {
+							case solver.Sat:
+								if env, ok := m.S.Model(m.F.Vars); ok {
+									m.model = sym.NewEvaluator(env)
+								}
+							case solver.Unsat:
+								res.End = pathEnd{"infeasible", "path condition unsat (found at a panic)"}
+								return
+							}
+							if m.model == nil {
+								res.End = pathEnd{"budget", "panic " + r.Site + " on a path whose feasibility the solver did not decide"}
+								return
+							}
+						}
 						m.recordCE("panic:"+r.Site, "panic", describe(r.V), m.currentEnv())
 					}()
 				}
@@ -546,4 +593,11 @@ func isSigned(t types.Type) bool {
 		return b.Info()&types.IsUnsigned == 0 && b.Info()&types.IsInteger != 0
 	}
 	return false
+}
+
+func clipStr(s string, n int) string {
+	if len(s) > n {
+		return s[:n] + "…"
+	}
+	return s
 }
